@@ -197,6 +197,12 @@ def run(ctx: Ctx):
         sel_attr = "self._meth_to_call"
     okc = len(rets) == 1 and isinstance(rets[0].value, ast.Call) and attr_chain(rets[0].value.func) == sel_attr \
         and len(rets[0].value.args) == 1 and len(cparams) == 1 and _same_array(rets[0].value.args[0], cparams[0])
+    # dispatch written out in __call__ (tests on stored flags, one `return self.<method>(array)` per case)
+    flag_dispatch = len(rets) >= 2 and all(isinstance(r_.value, ast.Call) and isinstance(r_.value.func, ast.Attribute)
+                                           and norm(r_.value.func.value) == "self" and r_.value.func.attr in cls.methods
+                                           and len(r_.value.args) == 1 and len(cparams) == 1 and _same_array(r_.value.args[0], cparams[0]) for r_ in rets)
+    if flag_dispatch:
+        okc = True
     ctx.attempt("R8.1", lambda: ctx.ob("R8.1", call, rets[0] if rets else "__call__", okc,
            "a call evaluates the selected method on the array it is given", node=rets[0] if rets else call.node))
 
@@ -313,7 +319,14 @@ def run(ctx: Ctx):
     ctx.extra["dispatch"] = disp
     # R8.3
     paths_ok = None not in disp and len(disp) == 3
-    ctx.attempt("R8.3", lambda: ctx.ob("R8.3", init, "constructor paths -> method: %s" % {k: len(v) for k, v in disp.items()}, paths_ok,
+    if flag_dispatch and set(disp) == {None}:
+        ctx.ob("R8.3", init, "method selection", True, "the evaluation method is chosen in __call__ from flags stored by the constructor, "
+               "not stored as a bound method; which case runs which method is not decided on this tree", undecided=True, node=call.node)
+        sel_flags = True
+    else:
+        sel_flags = False
+    if not sel_flags:
+      ctx.attempt("R8.3", lambda: ctx.ob("R8.3", init, "constructor paths -> method: %s" % {k: len(v) for k, v in disp.items()}, paths_ok,
            "every constructor path selects exactly one evaluation method, and three methods are in use", node=init.node))
 
     sel_none = sel_only = sel_with = None
@@ -331,7 +344,8 @@ def run(ctx: Ctx):
                 sel_only = m
             elif (anyt, True) in cs:
                 sel_with = m
-    ctx.attempt("R8.3", lambda: ctx.ob("R8.3", init, "no restraints -> %s ; all fixed restrained -> %s ; otherwise -> %s" % (sel_none, sel_only, sel_with),
+    if not sel_flags:
+      ctx.attempt("R8.3", lambda: ctx.ob("R8.3", init, "no restraints -> %s ; all fixed restrained -> %s ; otherwise -> %s" % (sel_none, sel_only, sel_with),
            None not in (sel_none, sel_only, sel_with) and len({sel_none, sel_only, sel_with}) == 3,
            "the three cases (no restraints / every fixed atom restrained / some unrestrained fixed atom) are mutually "
            "exclusive, cover everything and use different methods", node=init.node))
